@@ -183,9 +183,15 @@ impl Ctx {
                 let Ok(mut m) = Message::from_bytes(bytes) else { return (false, vec![]); };
                 let mut out = Vec::new();
                 if m.read_to_end(&mut out).is_err() { return (false, out); }
-                (m.verify(&pk).is_ok(), out)
+                let a = m.verify(&pk).is_ok();
+                // the one-call form (drain, then verify) must say the same
+                let b = Message::from_bytes(bytes).ok().map(|mut m2| m2.verify_read(&pk).is_ok()).unwrap_or(false);
+                (a || b, out)
             }).unwrap_or((false, vec![]))
         };
+        // (accepted by either form counts as accepted: a tampered message must be refused by both)
+        let both = guarded(|| { let a = Message::from_bytes(&msg[..]).ok().map(|mut m| { let mut o = Vec::new(); m.read_to_end(&mut o).is_ok() && m.verify(&pk).is_ok() }).unwrap_or(false); let b = Message::from_bytes(&msg[..]).ok().map(|mut m| m.verify_read(&pk).is_ok()).unwrap_or(false); a && b }).unwrap_or(false);
+        self.out.case("", &[], &["inline-verify-read".into()], &format!("verify and verify_read accept={}", both as u8), Some(both), &format!("{cls}-verify-read"));
         let (ok0, out0) = check(&msg);
         self.out.case("", &[], &["inline-baseline".into()], &format!("verify={}", ok0 as u8), Some(ok0 && out0 == data), &format!("{cls}-baseline"));
         let nbits = msg.len() * 8;
